@@ -183,6 +183,7 @@ func H19c_ping_during_large_publish() {
 	vrtQuiesce()
 	c.peerSend(specEncode(&specPkt{Typ: specPINGREQ}))
 	vrtQuiesce()
+	vrtAssert("C19.single_writer_per_connection", c.blockedWriters() <= 1)
 	c.peerStall(0) // the client reads again
 	vrtQuiesce()
 	got, ok := vrtParse(c.peerTake())
